@@ -1,6 +1,6 @@
 // C15 — tree/DAG queries follow graph-theoretic definitions; re-rooting keeps topology
 // VF-VARIANT: san
-// VF-RULE: E2: (a) every recursive tree (parent[i]<i) with 1..7 nodes and every labelled tree (Pruefer code) with 1..6 nodes (thorough: also every labelled 7-node tree, not re-rooted), built through createNode/addSon, x every new root (and "not re-rooted") x every node, ordered node pair and node subset of size <=3: rootAt clauses (same edge ids and end points, edge table agreeing with the links, new root the unique father-less node, still valid) and father/sons/branches/leaves-under/subtree/node-path/edge-path/MRCA against a parent-array reference; six structured families (path, star, caterpillar, balanced binary, comb, broom) with 8..12 nodes x 2 labellings x every root; (b) every labelled tree with 1..6|7 nodes x unRoot(false) x every new root; (c) every directed graph on <=4|5 labelled nodes (tree container with root 0; DAG container, arcs added through addSon/addFather) and every undirected graph on <=5|6 nodes for the validity predicates, fresh and cached, and DAG rootedness; every digraph on <=4 nodes x every new root x (validity and rootedness asked before or not) through DAG rootAt, validity and rootedness judged afterwards; every digraph on <=3|4 nodes with at least one self arc on the DAG container (self arcs added before or after a validity query); (d) observer variant with node/edge objects: re-rooting keeps every edge object on its edge (recursive trees <=6|7 nodes x root), object-level wrappers agree with the id-level queries, setFather/addSon with an edge object (recursive trees <=5|6 nodes x node x father x 3 kinds of edge object), validity for every digraph on <=3|4 nodes x every root, DAG observer addSon/addFather with edge objects. E1: breadth-first histories of createNode/createNodeFromNode/setFather/addSon/removeSon/deleteNode/rootAt/unRoot(false|true)/setOutGroup/isValid/isRooted over <=5 node ids from the empty graph (depth 6|7) and from every recursive 4-node tree (depth 3..4|4), both 3-node trees (4|5) and three 5-node trees (3|3) on the tree container; of createNode/addSon/addFather/removeSon/removeFather/deleteNode/rootAt/isValid/isRooted over <=4 node ids from the empty graph and from 3 and 4 isolated nodes (depth 4|5) on the DAG container; in every reached state (every cache status) the answer isValid() would give now and a fresh evaluation are compared with the definition evaluated on the graph read through the public getters, and every rootAt on a valid (rooted or un-rooted) tree is judged. A case is non-trivial when the tree has >=2 nodes (E2 trees), the graph has >=1 arc (E2 graphs) or the transition changed the canonical state (E1).
+// VF-RULE: E2: (a) every recursive tree (parent[i]<i) with 1..7 nodes and every labelled tree (Pruefer code) with 1..6 nodes (thorough: also every labelled 7-node tree, not re-rooted), built through createNode/addSon, x every new root (and "not re-rooted") x every node, ordered node pair and node subset of size <=3: rootAt clauses (same edge ids and end points, edge table agreeing with the links, new root the unique father-less node, still valid) and father/sons/branches/leaves-under/subtree/node-path/edge-path/MRCA against a parent-array reference; six structured families (path, star, caterpillar, balanced binary, comb, broom) with 8..12 nodes x 2 labellings x every root; (b) every labelled tree with 1..6|7 nodes x unRoot(false) x every new root; (c) every directed graph on <=4|5 labelled nodes (tree container with root 0; DAG container, arcs added through addSon/addFather) and every undirected graph on <=5|6 nodes for the validity predicates, fresh and cached, and DAG rootedness; every digraph on <=4 nodes x every new root x (validity and rootedness asked before or not) through DAG rootAt, validity and rootedness judged afterwards; every digraph on <=3|4 nodes with at least one self arc on the DAG container (self arcs added before or after a validity query); (d) observer variant with node/edge objects: re-rooting keeps every edge object on its edge (recursive trees <=6|7 nodes x root), object-level wrappers agree with the id-level queries, setFather/addSon with an edge object (recursive trees <=5|6 nodes x node x father x 3 kinds of edge object), each followed by a plain creation under the root that must leave every existing link and edge object as it was, validity for every digraph on <=3|4 nodes x every root, DAG observer addSon/addFather with edge objects. E1: breadth-first histories of createNode/createNodeFromNode/setFather/addSon/removeSon/deleteNode/rootAt/unRoot(false|true)/setOutGroup/isValid/isRooted over <=5 node ids from the empty graph (depth 6|7) and from every recursive 4-node tree (depth 3..4|4), both 3-node trees (4|5) and three 5-node trees (3|3) on the tree container; of createNode/addSon/addFather/removeSon/removeFather/deleteNode/rootAt/isValid/isRooted over <=4 node ids from the empty graph and from 3 and 4 isolated nodes (depth 4|5) on the DAG container; in every reached state (every cache status) the answer isValid() would give now and a fresh evaluation are compared with the definition evaluated on the graph read through the public getters, and every rootAt on a valid (rooted or un-rooted) tree is judged. A case is non-trivial when the tree has >=2 nodes (E2 trees), the graph has >=1 arc (E2 graphs) or the transition changed the canonical state (E1).
 // VF-BOUND: all tree shapes and labellings up to 6 nodes and all recursive trees with 7 nodes instead of 12 nodes, six enumerated families (not random trees) for 8..12; node subsets of size <=3; all digraphs up to 4 (quick) / 5 (thorough) nodes instead of DAGs on 6; histories of depth <=2..6 from seed trees over <=5 node ids (tree) and <=4 node ids (DAG) instead of unbounded histories; no self-loops except in the DAG validity space (every digraph on <=3|4 nodes with at least one self arc), no parallel links
 // VF-LEVEL: bounded-exhaustive differential check of the real containers against independent reference algorithms; every case of the stated finite spaces and every history up to the stated depth is executed under ASan/UBSan
 // VF-ASSUME: the reference algorithms in harness/C15_ref.hpp (BFS parent arrays, Kahn) are right;; the public getters getAllNodes/getOutgoingNeighbors/getIncomingNeighbors/getAllEdges/getTop/getBottom/getRoot/isDirected report the stored graph (GlobalGraph structure integrity is property C14);; E1 canonical states relabel edge ids by rank: the library uses edge ids only as ordered map keys and generates fresh ids above all existing ones, so behaviour is invariant under order-preserving relabelling;; histories never create self-loops or parallel links and, while the graph is undirected, never unlink (those reach the structure-integrity defects of C14, not the predicates of C15)
@@ -522,6 +522,25 @@ static void spaceObserverEdit(vf::Runner& R, int nmax) {
     c.site("AssociationTreeGraphImplObserver::isValid");
     GView g = viewOf(G);
     judgeValidity(c, "tree", treeValidity(G), refIsTree(g), [&] { return ctx + " giving " + g.str(); });
+    // a later plain creation under the root gets an edge of its own: every link that existed keeps its identity, end points and object
+    if (!raised) {
+      c.site("AssociationTreeGraphImplObserver::createNode(origin,new) after the edit");
+      std::vector<EdgeRec> before = edgesOf(G);
+      std::vector<std::pair<std::shared_ptr<int>, unsigned>> objs;
+      for (int i = 1; i < n; ++i) if (O.hasEdge(ot.E[i])) objs.push_back({ot.E[i], O.getEdgeGraphid(ot.E[i])});
+      if (O.hasEdge(e)) objs.push_back({e, O.getEdgeGraphid(e)});
+      auto fresh = std::make_shared<int>(7777);
+      bool r2 = false; try { O.createNode(ot.N[0], fresh); } catch (bpp::Exception&) { r2 = true; }
+      if (r2) c.tag("edit:follow-up-creation-raised");
+      else {
+        std::vector<EdgeRec> after = edgesOf(G);
+        bool kept = after.size() == before.size() + 1;
+        for (auto& b : before) if (std::find(after.begin(), after.end(), b) == after.end()) kept = false;
+        if (!kept) c.fail("observer|later-creation-disturbs-existing-links", ctx + " then createNode(root, new): links before " + edgesStr(before) + " after " + edgesStr(after));
+        else for (auto& ob : objs) if (!O.hasEdge(ob.first) || O.getEdgeGraphid(ob.first) != ob.second || O.getEdgeFromGraphid(ob.second) != ob.first) { c.fail("observer|later-creation-disturbs-edge-objects", ctx + " then createNode(root, new): the object of edge " + str(ob.second) + " is no longer on it"); break; }
+        c.tag("edit:follow-up-creation-judged");
+      }
+    }
   }, 10.0);
 }
 
